@@ -104,6 +104,15 @@ def assign_primes(elements: List[Any]) -> None:
 
 
 def check_circuit(c, expect_dup: bool, label_pattern: str, do_fit: bool, st) -> Tuple[List[dict], Dict[str, Any]]:
+    try:
+        return _check_circuit(c, expect_dup, label_pattern, do_fit, st)
+    except Exception as ex:  # an identifier / naming API call itself failed on a valid circuit
+        site = exc_signature(ex)
+        return [{"key": f"api|raises|{site}", "what": f"an identifier/naming API call raised {type(ex).__name__}: {str(ex)[:100]}", "detail": ""}], \
+            {"elements": len(all_elements(c, st)), "fit": False}
+
+
+def _check_circuit(c, expect_dup: bool, label_pattern: str, do_fit: bool, st) -> Tuple[List[dict], Dict[str, Any]]:
     np, sp = st["np"], st["sp"]
     viols: List[dict] = []
     info = {"elements": 0, "fit": False}
@@ -296,10 +305,58 @@ def build(case: dict, st):
     return c, expect_dup
 
 
+EDITS = ["append-top", "append-nested", "remove-last", "set-subcircuit", "append-in-subcircuit"]
+
+
+def apply_edit(c, kind: str, st) -> bool:
+    """Edits the circuit object in place through the public mutation API. Returns False when not applicable."""
+    from pyimpspec import Capacitor, Resistor, Series
+
+    top = c.get_connections(recursive=False)[0]
+    if kind == "append-top":
+        top.append(Resistor(R=7.0))
+        return True
+    if kind == "append-nested":
+        nested = c.get_connections(recursive=True)[1:]
+        if not nested:
+            return False
+        nested[0].append(Capacitor(C=3e-6))
+        return True
+    if kind == "remove-last":
+        items = list(top)
+        if len(items) < 2:
+            return False
+        top.remove(items[-1])
+        return True
+    conts = [e for e in all_elements(c, st) if isinstance(e, st["Container"])]
+    if not conts:
+        return False
+    if kind == "set-subcircuit":
+        conts[0].set_subcircuits(X_1=Series([Resistor(R=2.0), Capacitor(C=1e-5)]))
+        return True
+    if kind == "append-in-subcircuit":
+        for con in conts[0].get_subcircuits().values():
+            if con is not None and len(list(con)) > 0:
+                con.append(Resistor(R=11.0))
+                return True
+        return False
+    raise ValueError(kind)
+
+
 def run_case(case: dict, st=None):
     st = st or setup()
     c, expect_dup = build(case, st)
     v, info = check_circuit(c, expect_dup, case["labels"], bool(case.get("fit")), st)
+    if not v and case.get("edit"):
+        # the same object after an edit is still a circuit: identifiers, names and exports must describe the edited circuit
+        if apply_edit(c, case["edit"], st):
+            info["edited"] = True
+            assign_primes(all_elements(c, st))
+            v, info2 = check_circuit(c, expect_dup, case["labels"], False, st)
+            for x in v:
+                x["key"] += f"|after-edit:{case['edit']}"
+                x["what"] += f" [after {case['edit']} on the same Circuit object]"
+            info["elements"] = info2["elements"]
     for x in v:
         x["case"] = case
     return v, info
@@ -315,7 +372,7 @@ def _chunk(cases) -> dict:
     for case in cases:
         v, info = run_case(case, st)
         n += 1
-        o = f"elements={min(info['elements'], 12)}{'+' if info['elements'] > 12 else ''}" + ("/fit" if info["fit"] else "")
+        o = f"elements={min(info['elements'], 12)}{'+' if info['elements'] > 12 else ''}" + ("/fit" if info["fit"] else "") + ("/edited" if info.get("edited") else "")
         outcomes[o] = outcomes.get(o, 0) + 1
         if info["elements"] >= 2:
             nontrivial.append(hash(repr(case)))
@@ -352,13 +409,14 @@ def cases(thorough: bool) -> List[dict]:
                     k += 1
                     out.append({"kind": "tree", "tree": t, "fill": list(fill), "labels": lp,
                                 "route": "cdc" if (k % 5 == 0 and G.cdc_expressible(t)) else "objects",
-                                "fit": (k % (40 if thorough else 160) == 0)})
+                                "fit": (k % (40 if thorough else 160) == 0),
+                                "edit": EDITS[(k // 3) % len(EDITS)] if (thorough or k % 3 == 0) else None})
     # long chains / ladders: running identifiers share decimal suffixes (1/11/21, 2/12/22)
     chains = ["R" * 12, "R" * 22, "RC" * 8, "R" + "(RC)" * 7, "R" + "(RQ)" * 6 + "L", "(R[RC])" * 4 + "R" * 5,
               "R(RC)Tlm{X_1=[R(RC)],Z_A=[R(RQ)]}" + "(RC)" * 4, "RR(R[R(R[RC])])" + "R" * 9]
     for cdc in chains:
         for lp in ("none", "first:a", "all-distinct", "dup-same-type"):
-            out.append({"kind": "cdc", "cdc": cdc, "labels": lp, "fit": lp in ("none", "first:a")})
+            out.append({"kind": "cdc", "cdc": cdc, "labels": lp, "fit": lp in ("none", "first:a"), "edit": EDITS[len(out) % len(EDITS)]})
     return out
 
 
@@ -371,7 +429,7 @@ def run(ctx) -> None:
                 "distinct), built from objects or CDC text; plus series chains and ladders of 12-22 elements so that running identifiers share "
                 "decimal suffixes; every parameter gets a distinct prime-derived value. Oracles: identifier bijections over a reference traversal "
                 "incl. container sub-elements, name uniqueness, validate_circuit, fit identifiers, symbol<->element differential on "
-                "Circuit.to_sympy(), CircuiTikZ component count, and (on a subset) the table of a short real fit. Non-trivial = >= 2 elements.")
+                "Circuit.to_sympy(), CircuiTikZ component count, and (on a subset) the table of a short real fit. Every third circuit (all in thorough) is then edited in place (append to the top-level or a nested connection, remove, set_subcircuits, append inside a sub-circuit) and all oracles are re-evaluated on the same object. Non-trivial = >= 2 elements.")
     ctx.exhaustive = True
     ctx.assumptions = ["fits are short (max_nfev=15) and only used to read the parameter table back"]
     cs = cases(thorough)
